@@ -2,6 +2,7 @@
 import cm_rules as M
 import cowrite
 import generic_lints
+import hazard_lints
 import a4_twin
 import io_words
 import json, os
@@ -20,6 +21,7 @@ def run(facts, tier):
         ("emptiness predicate support", lambda fa: predicates.obligations(fa, ['count_min_sketch']), 1, "the emptiness predicate still consults every field it depended on in the reviewed tree (spec/predicates.json)"),
         ("serializer twins", lambda fa: [o for o in a4_twin.obligations(fa, set(json.load(open(os.path.join(VERIF, "spec", "twin_armed.json")))["armed"])) if "count_min" in o["key"]] + [o for o in io_words.obligations(fa, {k: v for k, v in json.load(open(os.path.join(VERIF, "spec", "io_words_exceptions.json"))).items() if not k.startswith("_")}) if "count_min" in o["key"]], 3, "stream and byte writers of the count-min sketch are twins and every layout they emit is one the readers consume (cells are not shifted for weight types narrower than 8 bytes)"),
         ("tautologies", lambda fa: generic_lints.tautologies(fa, ('count/',)), 2, "no comparison / assignment / min-max with two identical operands, no if-else with identical arms"),
+        ("hazards", lambda fa: hazard_lints.hazards(fa, ('count/',)), 2, "no 64-bit value silently narrowed at a call of a library function, no numeric_limits<floating>::min() as a lowest value, no random engine constructed inside a loop, no read of a moved-from parameter, no unguarded unsigned `x - c` loop bound (reviewed instances in spec/hazards.json)"),
         ("duplicate operands", lambda fa: generic_lints.duplicate_conjuncts(fa, ('count/',)), 2, "no logical chain tests the same operand twice (copy-paste of the wrong peer)"),
         ("state-writing shortcuts", lambda fa: generic_lints.state_writing_shortcuts(fa, ['count_min_sketch']), 1, "no merge / update branch writes fields and returns early past the steps all other paths run (compaction loop, totals, cached counts); one reviewed exception"),
         ("forwarding peers", lambda fa: generic_lints.forwarding_peers(fa, ('count/',)), 8, "one-statement typed overloads forward to an overload of their own name, never to the head of a sibling family (wrong peer)"),
